@@ -877,6 +877,90 @@ func ruleR23(c *Ctx) {
 			return false
 		})
 	}
+	// atomic read-modify-write: a Store whose value is computed from a Load of the same variable is a lost update
+	nStore := 0
+	for _, f := range p.Funcs {
+		in := info(f)
+		atomTarget := func(call *ast.CallExpr) (string, string) { // (key of the atomic variable, op)
+			fn := callee(in, call)
+			if fn == nil || fn.Pkg() == nil || fn.Pkg().Path() != "sync/atomic" {
+				return "", ""
+			}
+			if recvNamed(fn) != nil { // typed atomic method x.Load()/x.Store(v)
+				if sel, ok := unparen(call.Fun).(*ast.SelectorExpr); ok {
+					return refKey(in, sel.X), fn.Name()
+				}
+				return "", ""
+			}
+			if len(call.Args) > 0 { // atomic.LoadT(&x) / atomic.StoreT(&x, v)
+				if u, ok := unparen(call.Args[0]).(*ast.UnaryExpr); ok {
+					name := fn.Name()
+					switch {
+					case strings.HasPrefix(name, "Load"):
+						name = "Load"
+					case strings.HasPrefix(name, "Store"):
+						name = "Store"
+					}
+					return refKey(in, u.X), name
+				}
+			}
+			return "", ""
+		}
+		// locals derived from a Load of key k
+		derived := map[types.Object]string{}
+		inspectNoLit(f.Body, func(m ast.Node) bool {
+			as, ok := m.(*ast.AssignStmt)
+			if !ok || len(as.Lhs) != len(as.Rhs) {
+				return true
+			}
+			for i, l := range as.Lhs {
+				id, ok := unparen(l).(*ast.Ident)
+				if !ok {
+					continue
+				}
+				inspectNoLit(as.Rhs[i], func(z ast.Node) bool {
+					if call, ok := z.(*ast.CallExpr); ok {
+						if k, op := atomTarget(call); k != "" && op == "Load" {
+							derived[objOf(in, id)] = k
+						}
+					}
+					if rid, ok := z.(*ast.Ident); ok {
+						if k, ok := derived[objOf(in, rid)]; ok {
+							derived[objOf(in, id)] = k
+						}
+					}
+					return true
+				})
+			}
+			return true
+		})
+		inspectNoLit(f.Body, func(m ast.Node) bool {
+			call, ok := m.(*ast.CallExpr)
+			if !ok {
+				return true
+			}
+			k, op := atomTarget(call)
+			if k == "" || op != "Store" {
+				return true
+			}
+			nStore++
+			arg := call.Args[len(call.Args)-1]
+			rmw := false
+			inspectNoLit(arg, func(z ast.Node) bool {
+				if c2, ok := z.(*ast.CallExpr); ok {
+					if k2, op2 := atomTarget(c2); k2 == k && op2 == "Load" {
+						rmw = true
+					}
+				}
+				if rid, ok := z.(*ast.Ident); ok && derived[objOf(in, rid)] == k {
+					rmw = true
+				}
+				return true
+			})
+			c.Check(!rmw, f, call, "atomic Store of "+exprStringShort(unparen(call.Fun)), "the value stored into an atomic variable is not computed from a Load of the same variable (load, compute, store is not atomic: two goroutines can store the same value; use Add or CompareAndSwap)", fmt.Sprintf("stored value derives from a Load of the same variable: %v", rmw))
+			return true
+		})
+	}
 	// typed atomics are safe by construction; count them as instances for the record
 	n := 0
 	for _, pk := range p.Target {
